@@ -73,8 +73,11 @@ class GWCSAPIMixin(BaseHighLevelWCS, BaseLowLevelWCS):
         """
         return tuple(unit.to_string(format='vounit') for unit in self.output_frame.unit)
 
-    def _remove_quantity_output(self, result, frame):
-        if self.forward_transform.uses_quantity:
+    def _remove_quantity_output(self, result, frame, transform=None):
+        # ``transform`` is the transform that produced ``result``
+        if transform is None:
+            transform = self.forward_transform
+        if transform.uses_quantity:
             if frame.naxes == 1:
                 result = [result]
 
@@ -139,13 +142,13 @@ class GWCSAPIMixin(BaseHighLevelWCS, BaseLowLevelWCS):
             backward_transform = self.backward_transform
         except NotImplementedError:
             # no analytic inverse: ``invert`` falls back on the iterative one
-            pass
+            backward_transform = None
         else:
             world_arrays = self._add_units_input(world_arrays, backward_transform, self.output_frame)
 
         result = self.invert(*world_arrays, with_units=False)
 
-        return self._remove_quantity_output(result, self.input_frame)
+        return self._remove_quantity_output(result, self.input_frame, backward_transform)
 
     def world_to_array_index_values(self, *world_arrays):
         """
